@@ -30,6 +30,10 @@ CallHook = Callable[[ast.Call, List[object], Dict[str, object], Explorer], objec
 
 class Model:
     def __init__(self, ctx: Ctx, rule: str, on_call: Optional[CallHook] = None, oracle=None) -> None:  # type: ignore[no-untyped-def]
+        import sys as _sys
+
+        if _sys.getrecursionlimit() < 6000:  # noqa: PLR2004
+            _sys.setrecursionlimit(6000)  # nested abstract runs (a recursive equality on a nested document) are deep in Python frames
         self.ctx = ctx
         self.rule = rule
         self.depth = 0
@@ -95,7 +99,7 @@ class Model:
         cacheable = method != "__init__" and not kwargs and all(isinstance(a, (str, int, float, bool, type(None), tuple, MObj)) for a in args)
         if cacheable and key in self.cache:
             return self.cache[key]
-        if self.depth > 12:  # noqa: PLR2004
+        if self.depth > 30:  # noqa: PLR2004
             raise AnalysisError(f"{self.rule}: recursion too deep in the abstract execution of {fn.qualname}")
         params = [a.arg for a in fn.node.args.args]
         static = any(isinstance(d, ast.Name) and d.id == "staticmethod" for d in fn.node.decorator_list) or not bind_self
@@ -304,8 +308,11 @@ class MObj(AbstractObject):
             v = self.model.ctx.folder.class_attr(self.model.ctx.repo.require_class(self.cls), name)
         except (NotConst, AnalysisError):
             return UNKNOWN
+        from sa.consteval import ClassRef as _CRef
         from sa.consteval import RegexConst as _RC
 
+        if isinstance(v, _CRef):
+            return ClassModel(self.model, v.cls.qualname, {})  # a class held as a class attribute (`pointer_class = JSONPointer`)
         return v if isinstance(v, (str, int, float, bool, tuple, list, dict, frozenset, set, _RC)) else UNKNOWN
 
     def peval_setattr(self, name: str, value: object) -> None:
